@@ -418,7 +418,40 @@ func c05Sorting(c *Ctx, rule string) {
 		runWire(c, rule, wireSpec{Fn: fnKey, Sink: "field:format.SortingColumn.Descending", Allowed: []string{"call:(SortingColumn).Descending"}})
 		runWire(c, rule, wireSpec{Fn: fnKey, Sink: "field:format.SortingColumn.NullsFirst", Allowed: []string{"call:(SortingColumn).NullsFirst"}})
 	}
-	c.Min(rule, 4)
+	// the writer's sorting columns are made with one zero-valued slot per declared
+	// column and filled as matching leaves are found: slots that stay zero
+	// would be recorded as {column 0, ascending}, so the slice is cut down to
+	// what was filled before it is used
+	p := c.P
+	sc := p.LookupField("writer", "sortingColumns")
+	if obj := p.LookupFunc("newWriter"); obj != nil && c.Anchor(rule, "writer.sortingColumns", sc != nil) {
+		fn := p.SSAFunc(obj)
+		presized, trimmed := false, false
+		allInstrs(fn, false, func(_ *ssa.Function, ins ssa.Instruction) {
+			st, ok := ins.(*ssa.Store)
+			if !ok {
+				return
+			}
+			fs, _, elem := fieldChain(st.Addr)
+			if len(fs) == 0 || elem || fs[len(fs)-1] != sc {
+				return
+			}
+			switch v := st.Val.(type) {
+			case *ssa.MakeSlice:
+				if k, isConst := v.Len.(*ssa.Const); !isConst || k.Value == nil || k.Value.ExactString() != "0" {
+					presized = true
+				}
+			case *ssa.Slice:
+				for _, o := range Origins(v.X, OriginOpts{}) {
+					if o.Kind == OrgField && o.Field == sc {
+						trimmed = true
+					}
+				}
+			}
+		})
+		c.Check(rule, "newWriter records only the sorting columns it found in the schema", fn.Pos(), !presized || trimmed, "the writer's sorting columns are pre-sized for the declared columns and never cut down to the ones that matched a leaf: a declared column the schema does not have is recorded as {column 0, ascending}, an order the caller never declared")
+	}
+	c.Min(rule, 5)
 }
 
 // c05Boundary: the boundary order a merged column index claims across two
